@@ -21,6 +21,31 @@ struct kept { struct yaep_tree_node *root; char *ser; int mode; int nterm; int e
 static struct kept kept[MAXTREES];
 static int nkept;
 static char epoch_mode[4096];
+static long fault_k;		/* if > 0: the fault_k-th library allocation of the next create/define/parse fails */
+static int poisoned[MAXSLOT];	/* the slot suffered an injected failure: only free is executed on it */
+static long n_injected, injected_at_start;
+
+static long fault_begin (void)
+{
+  long a0 = yv_lib_allocs;
+  if (fault_k > 0) { yv_fail_at = yv_lib_allocs + fault_k; yv_fail_sticky = 0; }
+  return a0;
+}
+/* returns 1 if the failure was really injected during the call */
+static int fault_end (long a0, int s, const char *what)
+{
+  int injected = fault_k > 0 && yv_lib_allocs >= yv_fail_at;
+  if (fault_k > 0)
+    {
+      int i;
+      printf ("{\"k\":\"fault\",\"g\":\"%s\",\"op\":%ld,\"what\":\"%s\",\"fk\":%ld,\"injected\":%d,\"allocs\":%ld,\"bt\":[", bid, n_ops, what, fault_k, injected, yv_lib_allocs - a0);
+      for (i = 0; injected && i < yv_fail_bt_n; i++) printf ("%s\"%p\"", i ? "," : "", yv_fail_bt[i]);
+      printf ("]}\n");
+      if (injected) { n_injected++; poisoned[s] = 1; }
+    }
+  yv_fail_at = 0; fault_k = 0;
+  return injected;
+}
 
 static void load_def (int d)
 {
@@ -76,6 +101,7 @@ static void api_parse (int s, int in, const char *mode, const char *rcs, int sen
 {
   struct yaep_tree_node *root = (struct yaep_tree_node *) 0x1;
   int amb = -99, rc, i, nt = 0;
+  long a0;
   int m = strcmp (mode, "ff") == 0 ? 0 : strcmp (mode, "nn") == 0 ? 1 : strcmp (mode, "fn") == 0 ? 2 : 3;
   ntoks = ninput[in];
   for (i = 0; i < ntoks; i++) toks_in[i] = inputs[in][i];
@@ -86,6 +112,7 @@ static void api_parse (int s, int in, const char *mode, const char *rcs, int sen
   snprintf (cfgstr, sizeof cfgstr, "b=%s op=%ld parse s=%d in=%d mode=%s", bid, n_ops, s, in, mode);
   snprintf (yv_where, sizeof yv_where, "parse g=%s %s", bid, cfgstr);
   alarm (20);
+  a0 = fault_begin ();
   if (m == 0) LIB (rc = G_PARSE (slot[s], read_tok_cb, syn_err_cb, pa_cb, pf_cb, &root, &amb));
   else if (m == 1) LIB (rc = G_PARSE (slot[s], read_tok_cb, syn_err_cb, NULL, NULL, &root, &amb));
   else if (m == 2) LIB (rc = G_PARSE (slot[s], read_tok_cb, syn_err_cb, pa_cb, NULL, &root, &amb));
@@ -93,6 +120,14 @@ static void api_parse (int s, int in, const char *mode, const char *rcs, int sen
   alarm (0);
   snprintf (yv_where, sizeof yv_where, "after-parse g=%s %s", bid, cfgstr);
   n_parses++;
+  if (fault_end (a0, s, "parse"))
+    {
+      if (rc != YAEP_NO_MEMORY) mismatch_i ("return code of a parse in which an allocation failed", rc, YAEP_NO_MEMORY);
+      else { int e; LIB (e = G_ERRCODE (slot[s])); if (e != YAEP_NO_MEMORY) mismatch_i ("error_code after an allocation failure", e, YAEP_NO_MEMORY); }
+      chk_epoch = -1;
+      led_bad_free = led_double_free = led_null_free = led_foreign_free = 0;
+      return;
+    }
   if (!in_list (rcs, rc)) { char b[16]; sprintf (b, "%d", rc); mismatch ("parse return code", b, rcs); }
   if (rc != 0) shadow_err[s] = rc;
   check_err (s, "parse");
@@ -154,7 +189,9 @@ static void end_behaviour (long lib0)
     if (live != 0) mismatch_i ("parse_alloc blocks never released after all trees were freed", live, 0);
   }
   ledger_reset ();
-  if (yv_lib_live != lib0) mismatch_i ("library heap blocks held after all objects and trees were freed", yv_lib_live - lib0, 0);
+  /* after an injected allocation failure the property (C17) promises a clean return and a freeable object,
+     not that the abandoned work is released: the heap balance is only judged for undisturbed behaviours */
+  if (n_injected == injected_at_start && yv_lib_live != lib0) mismatch_i ("library heap blocks held after all objects and trees were freed", yv_lib_live - lib0, 0);
 }
 
 int main (int argc, char **argv)
@@ -215,7 +252,8 @@ int main (int argc, char **argv)
 	{
 	  snprintf (bid, sizeof bid, "%s", p); snprintf (gid, sizeof gid, "%s", p); snprintf (wid, sizeof wid, "-");
 	  n_beh++; nkept = 0; cur_epoch = 0;
-	  for (i = 0; i < MAXSLOT; i++) { slot[i] = NULL; shadow_err[i] = 0; }
+	  for (i = 0; i < MAXSLOT; i++) { slot[i] = NULL; shadow_err[i] = 0; poisoned[i] = 0; }
+	  fault_k = 0; injected_at_start = n_injected;
 	  lib0 = yv_lib_live;
 	}
       else if (strcmp (tok, "c") == 0)
@@ -224,7 +262,15 @@ int main (int argc, char **argv)
 	  n_ops++;
 	  snprintf (cfgstr, sizeof cfgstr, "b=%s op=%ld create s=%d", bid, n_ops, s);
 	  snprintf (yv_where, sizeof yv_where, "create g=%s %s", bid, cfgstr);
-	  LIB (slot[s] = G_CREATE ());
+	  {
+	    long a0 = fault_begin ();
+	    LIB (slot[s] = G_CREATE ());
+	    if (fault_end (a0, s, "create"))
+	      {
+		if (slot[s] != NULL) mismatch ("create in which an allocation failed", "object", "NULL");
+		continue;
+	      }
+	  }
 	  shadow_err[s] = 0;
 	  if (slot[s] == NULL) mismatch ("create", "NULL", "object");
 	  else
@@ -246,14 +292,17 @@ int main (int argc, char **argv)
 	  n_ops++;
 	  snprintf (cfgstr, sizeof cfgstr, "b=%s op=%ld free s=%d", bid, n_ops, s);
 	  snprintf (yv_where, sizeof yv_where, "free g=%s %s", bid, cfgstr);
-	  LIB (G_FREE (slot[s])); slot[s] = NULL;
+	  if (slot[s] != NULL) LIB (G_FREE (slot[s]));
+	  slot[s] = NULL; poisoned[s] = 0;
 	}
+      else if (strcmp (tok, "K") == 0) fault_k = atol (p);
       else if (strcmp (tok, "s") == 0)
 	{
 	  int s = atoi (strsep (&p, " ")), v, prev, got = -12345;
 	  char *which = strsep (&p, " ");
 	  v = atoi (strsep (&p, " ")); prev = atoi (p);
 	  n_ops++;
+	  if (poisoned[s] || slot[s] == NULL) continue;
 	  snprintf (cfgstr, sizeof cfgstr, "b=%s op=%ld set %s s=%d v=%d", bid, n_ops, which, s, v);
 	  snprintf (yv_where, sizeof yv_where, "set g=%s %s", bid, cfgstr);
 	  if (strcmp (which, "la") == 0) LIB (got = G_SET_LA (slot[s], v));
@@ -268,12 +317,15 @@ int main (int argc, char **argv)
       else if (strcmp (tok, "d") == 0)
 	{
 	  int s = atoi (strsep (&p, " ")), d = atoi (strsep (&p, " ")), strict = atoi (strsep (&p, " ")), text = atoi (strsep (&p, " ")), rc;
+	  long a0;
 	  n_ops++; n_defs++;
+	  if (poisoned[s] || slot[s] == NULL) { fault_k = 0; continue; }
 	  snprintf (cfgstr, sizeof cfgstr, "b=%s op=%ld define s=%d d=%d strict=%d text=%d", bid, n_ops, s, d, strict, text);
 	  snprintf (yv_where, sizeof yv_where, "define g=%s %s", bid, cfgstr);
 	  if (text)
 	    {
 	      char *copy = yv_strdup (defs[d].text);
+	      a0 = fault_begin ();
 	      LIB (rc = G_PARSEG (slot[s], strict, copy));
 	      memset (copy, '#', strlen (copy)); __real_free (copy);
 	    }
@@ -281,8 +333,15 @@ int main (int argc, char **argv)
 	    {
 	      load_def (d);
 	      build_def_buffers ();
+	      a0 = fault_begin ();
 	      LIB (rc = G_READ (slot[s], strict, rt_cb, rr_cb));
 	      scribble_def_buffers ();
+	    }
+	  if (fault_end (a0, s, "define"))
+	    {
+	      if (rc != YAEP_NO_MEMORY) mismatch_i ("return code of a definition in which an allocation failed", rc, YAEP_NO_MEMORY);
+	      else { int e; LIB (e = G_ERRCODE (slot[s])); if (e != YAEP_NO_MEMORY) mismatch_i ("error_code after an allocation failure", e, YAEP_NO_MEMORY); }
+	      continue;
 	    }
 	  if (!in_list (p, rc)) { char b[16]; sprintf (b, "%d", rc); mismatch ("definition return code", b, p); }
 	  if (rc != 0) shadow_err[s] = rc;
@@ -294,6 +353,7 @@ int main (int argc, char **argv)
 	  char *mode = strsep (&p, " "), *rcs = strsep (&p, " ");
 	  int sent = atoi (p);
 	  n_ops++;
+	  if (poisoned[s] || slot[s] == NULL) { fault_k = 0; continue; }
 	  api_parse (s, in, mode, rcs, sent);
 	}
       else if (strcmp (tok, "x") == 0) end_behaviour (lib0);
